@@ -309,7 +309,11 @@ flatmap_get_chunk_flat(struct flattened_map *map, struct fcache_chunk *fch,
 	end = range + addrxlat_map_len(fmap->map);
 	for (off = pos; range < end && off > range->endoff; ++range)
 		off -= range->endoff + 1;
-	if (len <= range->endoff + 1 - off) {
+	/* Only a chunk inside one flattened segment can be used directly.
+	 * A hole (or a file without any segments) has no file data.
+	 */
+	if (range < end && range->meth != ADDRXLAT_SYS_METH_NONE &&
+	    len <= range->endoff + 1 - off) {
 		pos += fmap->offs[range->meth];
 		return fcache_get_chunk(map->fcache, fch, len, fidx, pos);
 	}
